@@ -43,6 +43,11 @@ struct Inner {
     // hold mode: the first arrival at `point` whose fields match `filter` parks until released
     hold: Option<Hold>,
     jitter: Option<(u64, u64)>, // (xorshift state, max sleep in microseconds)
+    // ack-on-disk mode: at log.flushed (the append is about to be acknowledged, the writer mutex is still
+    // held) the last line of the log file must be the frame just appended
+    ackdisk: Option<PathBuf>,
+    ack_checked: u64,
+    ack_missing: Vec<Value>,
 }
 
 #[derive(Clone, Debug)]
@@ -144,6 +149,23 @@ impl rip_kernel::verif::Sink for Hub {
             }
             fail = f;
             if name == "log.flushed" {
+                if let Some(path) = g.ackdisk.clone() {
+                    let want = fields.get("bytes").and_then(|b| b.as_u64()).unwrap_or(0);
+                    let id = fields.get("id").and_then(|b| b.as_str()).unwrap_or("").to_string();
+                    let tail = util::file_tail(&path, want);
+                    let ok = tail
+                        .as_ref()
+                        .map(|t| t.ends_with(b"\n") && serde_json::from_slice::<Value>(t).ok().and_then(|v| v.get("id").and_then(|x| x.as_str()).map(|x| x == id)).unwrap_or(false))
+                        .unwrap_or(false);
+                    g.ack_checked += 1;
+                    if !ok && g.ack_missing.len() < 20 {
+                        let mut f = fields.clone();
+                        if let Some(o) = f.as_object_mut() {
+                            o.insert("file_len".into(), json!(std::fs::metadata(&path).map(|m| m.len()).unwrap_or(0)));
+                        }
+                        g.ack_missing.push(f);
+                    }
+                }
                 if let (Some(st), Some(q)) = (
                     fields.get("stream").and_then(|s| s.as_str()),
                     fields.get("seq").and_then(|s| s.as_u64()),
@@ -261,6 +283,17 @@ impl Hub {
         let mut g = self.inner.lock().unwrap();
         *g = Inner::default();
         self.cv.notify_all();
+    }
+    pub fn set_ackdisk(&self, path: Option<PathBuf>) {
+        let mut g = self.inner.lock().unwrap();
+        g.ackdisk = path;
+        g.ack_checked = 0;
+        g.ack_missing.clear();
+    }
+    pub fn take_ackdisk(&self) -> (u64, Vec<Value>) {
+        let mut g = self.inner.lock().unwrap();
+        g.ackdisk = None;
+        (g.ack_checked, std::mem::take(&mut g.ack_missing))
     }
     pub fn set_record(&self, on: bool) {
         self.inner.lock().unwrap().record = on;
